@@ -12,16 +12,24 @@ implementation's results and finds the concrete failing input when a theorem sto
 from harness import core, gen_math, spec_math, translate_math
 
 MODEL = 'math'
-RULE = ('seeded: every public function of desper/math.py (static table harness/math_api.py, 108 entries) '
+RULE = ('seeded: every public function of desper/math.py (static table harness/math_api.py, 114 entries) '
         'is called 30x (quick) / 3000x (thorough) in 12-line scenarios - polynomial functions exactly on '
         'rationals (small numerators/denominators, zeros, +-1, zero and axis vectors, identity / diagonal '
-        '/ sparse / singular / near-singular matrices, degenerate projection boxes), sqrt/angle functions '
+        '/ sparse / singular / near-singular matrices, degenerate projection boxes) AND on the exact domain '
+        '(genuine Python ints beyond 2**53, Fractions with denominators 3 7 9 10 11 13 6 15, mixed; nothing '
+        'converted; value and float contamination judged), sqrt/angle functions '
         'exactly under the stand-in interpretation (translator validation) and on floats of magnitude '
         '1e-3..1e3 (tolerance test, limit thresholds next to the length); plus every attribute string of '
         'length 0..5 over xyzw+aX on Vec2, Vec3, Vec4 (3 x 9331 strings).  Non-trivial: the scenario '
         'has at least one call that returned a value with a non-zero entry; distinct by scenario text.')
 ASSUMPTIONS = [
-    'exactness is over the rationals / reals: int and float literals of math.py denote their exact values; '
+    'the theorems are over a field: int and float literals of math.py denote their exact values there.  What '
+    'Python does with a float literal on EXACT arguments (it rounds them: Fraction * 1.0 is a float) is tracked '
+    'by the translator (coverage.pre_build.float_contaminated, `<fn>.floats` in MathExec.lean), compared with '
+    'the types the real functions return on genuine ints > 2**53 and non-dyadic Fractions, and judged by the '
+    'oracle: an argument-dependent entry that comes back as a float, or differs from the textbook value, is a '
+    'violation (`calle` lines).  For functions that divide, the exact domain is the Fractions (int / int is '
+    "Python's float division)",
     'IEEE rounding of the sqrt/angle operations is only TESTED (rel. tol. 1e-9, inputs 1e-3..1e3)',
     'in the generic Lean definitions x/0 = 0; Python raises ZeroDivisionError there (executed and compared '
     'as a call status; theorems that divide carry explicit non-zero hypotheses)',
@@ -63,7 +71,7 @@ def pre_build():
     # Props/C18.lean no longer compiles (the failing-input search and the replay use it)
     _build_driver()
     return {k: inv[k] for k in ('source', 'source_sha1', 'functions_traced', 'always_raise',
-                                'untranslatable', 'paths', 'preconditions', 'not_attempted', 'swizzle',
+                                'untranslatable', 'paths', 'preconditions', 'float_contaminated', 'float_for_int_arguments', 'not_attempted', 'swizzle',
                                 'swizzle_untranslatable', 'rewrote_MathGen', 'rewrote_MathExec')} | {
         'translated': len(inv['translated']), 'transcendental': len(inv['transcendental'])}
 
@@ -76,7 +84,14 @@ def project(obs):
     out = []
     for o in obs:
         t = o.split()
-        out.append(' '.join(t[:2]) if t and t[0] == 'rf' else o)   # floats are judged by the oracle only
+        if t and t[0] == 'rf':
+            out.append(' '.join(t[:2]))          # floats are judged by the oracle only
+        elif t and t[0] == 're':
+            # exact-domain run: exact entries are compared for equality, for an entry that came back
+            # as a float only the fact is compared (model: `<fn>.floats`); its value is the oracle's
+            out.append(' '.join('~' if x.startswith('~') else x for x in t))
+        else:
+            out.append(o)
     return out
 
 
